@@ -4,6 +4,7 @@ import sink
 import obs
 
 ID = "C15"
+TABLES = ["scalar"]      # leaf tables compared exhaustively through the hooks (coq/Check/Tables.v)
 REQUIRES = ["Agree", "C15Spec", "Truth"]
 THEOREM_REQUIRES = ["C15"]
 THEOREMS = ["C15_holds_bool"]
